@@ -7,6 +7,8 @@
      | hdr:ok <le|be> ver=<v> n=<stream_count> dir=<rva> | dir:[<type>@<idx>:<size>:<rva>,..]
        | thr:<S> | mod:<S> | unl:<S> | mem:<S> | mem64:<S> | minfo:<S> | tnames:<S> | tinfo:<S>
        | hnd:<S> | exc:<S> | cp:<S> | getmem:<mem64|mem|none>
+       | sys:<S> | tx:<-|ok[..]> | xctx:.. | rsn:.. | mpr:.. | lsb:<S> | env:<S> | cpui:<S> | stat:<S> | lim:<S>
+       | bp:<S> | asrt:<S> | mac:<S>/<n> | boot:<S>          (`MdModel.DumpFull.readExtra`, see `showExtra`)
      followed by  ` ## allocs:<n>*<sz>[~],..`  (the allocation log; `~` = inexact estimate)
      or `PANIC <site> ## allocs:..` when the model reaches a panic outcome.
     <S> = `err <Error>` or `ok[..]` with one `;`-terminated item per element (see `show*` below).
@@ -16,6 +18,7 @@
 -/
 import MdModel.Prelude
 import MdModel.Dump
+import MdModel.DumpFull
 import MdModel.Encode
 namespace MdModel.Bytes
 open MdModel MdModel.Dump
@@ -124,13 +127,76 @@ def parseSizes (s : String) : Option MemSizes :=
     some ⟨a, b, c, d, e, f, g, h, i, j, k, l, m, n, o, p, q, r, t⟩
   | _ => none
 
+/-! ### the second group of streams / accessors (`MdModel.DumpFull.readExtra`) -/
+
+def showOptNat : Option Nat → String
+  | none => "-"
+  | some n => toString n
+
+def showSys (s : SysInfo) : String :=
+  "ok " ++ Proto.joinWith "/" ((s.vals.take 11).map toString) ++ "/" ++ showBytes s.cpuData ++ "/csd" ++ showOptName s.csd ++
+    "/" ++ s.cpu.name ++ "/i" ++ (match s.cpuInfo with
+      | none => "-"
+      | some t => "=" ++ showBytes t.toUTF8.data)
+
+def showCtx : Option (Except CtxErr CtxOut) → String
+  | none => "-"
+  | some (.error .readFailure) => "e:read"
+  | some (.error .unknownCpu) => "e:unknown"
+  | some (.ok c) => s!"{c.kind.name}:{c.flags}:{c.ip}:{c.sp}:{c.printed}"
+
+def showThreadX (t : ThreadX) : String :=
+  s!"{t.id}/{showCtx t.ctx}/" ++ (match t.stack with
+    | none => "-"
+    | some r => s!"{r.base}:{r.size}:{r.rva}") ++ "/" ++ Proto.joinWith "," (t.lastErrors.map fun o => match o with
+      | none => "-"
+      | some v => (Reason.windowsError v).render) ++ s!"/{t.printed}"
+
+def showSpan (sp : Span) : String := s!"{sp.1}+{sp.2 - sp.1}"
+def showKv (kv : Span × Span) : String := showSpan kv.1 ++ ":" ++ showSpan kv.2
+
+def showBreakpad (i : BreakpadInfo) : String :=
+  s!"ok {i.validity}/{showOptNat i.dumpThreadId}/{showOptNat i.requestingThreadId}"
+
+def showAssertion (a : Assertion) : String :=
+  s!"ok {showOptName a.expression}/{showOptName a.function}/{showOptName a.file}/{a.line}/{a.ty}"
+
+def showMacRecord (r : MacRecord) : String :=
+  s!"{r.variant}/" ++ Proto.joinWith "," (r.fixed.map toString) ++ "/" ++ Proto.joinWith "," (r.strings.map showBytes)
+
+def showBootargs (m : MacBootargs) : String := s!"ok {m.streamType}/{m.rva}/{showOptName m.bootargs}"
+
+def showExtra (x : Extra) : String :=
+  Proto.joinWith " | " [
+    "sys:" ++ showRes showSys x.sys,
+    "tx:" ++ (match x.threads with
+      | none => "-"
+      | some ts => showItems showThreadX ts),
+    "xctx:" ++ (match x.excCtx with
+      | none => "-"
+      | some none => "0"
+      | some c => showCtx c),
+    "rsn:" ++ (match x.reason with
+      | none => "-"
+      | some (tag, addr) => s!"{tag}/{addr}"),
+    "mpr:" ++ showOptNat x.memPrinted,
+    "lsb:" ++ showRes (showItems showKv) x.lsb,
+    "env:" ++ showRes (showItems showKv) x.environ,
+    "cpui:" ++ showRes (showItems showKv) x.cpuinfo,
+    "stat:" ++ showRes (showItems showKv) x.status,
+    "lim:" ++ showRes (showItems showSpan) x.limits,
+    "bp:" ++ showRes showBreakpad x.breakpad,
+    "asrt:" ++ showRes showAssertion x.assertion,
+    "mac:" ++ showRes (showItems showMacRecord) x.mac ++ s!"/{x.macPrinted}",
+    "boot:" ++ showRes showBootargs x.bootargs]
+
 def answerRead (ms : MemSizes) (b : Bytes) : String :=
-  let r := readAll ms b
+  let r := readFull ms b
   (match r.res with
    | .panic site => "PANIC " ++ site
-   | .err e => "hdr:err " ++ e.name    -- not produced by `readAll` (errors are values)
+   | .err e => "hdr:err " ++ e.name    -- not produced by `readFull` (errors are values)
    | .ok (.error e) => "hdr:err " ++ e.name
-   | .ok (.ok p) => showParsed p) ++ " ## " ++ showAllocs r.allocs
+   | .ok (.ok f) => showParsed f.base ++ " | " ++ showExtra f.extra) ++ " ## " ++ showAllocs r.allocs
 
 /-- line-protocol entry point of this model (engine(s): read, roundtrip) -/
 def handle (engine : String) (args : List String) : String :=
